@@ -8,6 +8,7 @@ import Driver.Stats
 import Driver.InstSat
 import Driver.JR
 import Driver.Price
+import Driver.PriceMIP
 import Driver.Multi
 import Driver.Containers
 import Driver.Effects
@@ -39,6 +40,8 @@ def dispatch (line : String) : String :=
     | "price" => cmdPrice a
     | "round2" => cmdRound2 a
     | "pricerelax" => cmdPriceRelax a
+    | "pricemip" => cmdPriceMIP a
+    | "pricemipsat" => cmdPriceMIPSat a
     | "multi" => cmdMulti a
     | "ops" => cmdOps a
     | "effects" => cmdEffects a
